@@ -9,6 +9,7 @@ import sys
 VERIF = os.path.dirname(os.path.dirname(os.path.abspath(__file__)))
 ID, name, detected = sys.argv[1], sys.argv[2], sys.argv[3]
 needs = " ".join(sys.argv[4:])
+PROP = re.sub(r"r\d+$", "", ID)
 src = "/tmp/seed/%s" % ID
 log = open("%s/%s.confirm.log" % (src, name)).read()
 m = re.search(r"RESULT name=\S+ demo_with_change_exit=(\d+) suite_with_change_exit=(\d+) demo_without_change_exit=(\d+)", log)
@@ -21,7 +22,8 @@ shutil.copy("%s/%s.notes.md" % (src, name), dst + "/notes.md")
 suite_tail = open("%s/%s.suite.out" % (src, name)).read().strip().splitlines()[-3:]
 meta = {
     "id": name,
-    "property": ID,
+    "property": PROP,
+    "round": 2 if ID.endswith("r2") else 1,
     "breaks": open("/tmp/seed/%s.prop.txt" % ID).read().split("\n")[0],
     "needs_to_manifest": needs,
     "origin": "independent sub-agent given only the property text and a scratch worktree (nothing from /verif)",
@@ -32,7 +34,7 @@ meta = {
         "suite_tail": suite_tail,
         "demo_cmd": "cp demo.rs tests/seed_%s.rs && cargo test --offline --test seed_%s" % (name, name),
     },
-    "static_check": {"cmd": "tools/seedcheck.py seeded/%s/patch.diff %s" % (name, ID), "detected_by": detected},
+    "static_check": {"cmd": "tools/seedcheck.py seeded/%s/patch.diff %s" % (name, PROP), "detected_by": detected},
 }
 json.dump(meta, open(dst + "/meta.json", "w"), indent=1)
 print("kept", dst)
